@@ -49,3 +49,46 @@ pub fn replay(case: &J) -> J {
     crate::ev::clear_stats();
     if problems.is_empty() { json!({"evals": 1, "mismatches": []}) } else { json!({"evals": 1, "mismatches": [{"src": text, "inputs": case["inputs"], "obs": problems, "resp": resp}]}) }
 }
+
+// ---------------------------------------------------------------- evaluate_inline_expressions
+fn inline_text(st: &J) -> String {
+    match st["k"].as_str().unwrap() {
+        "direct" => st["x"].as_str().unwrap().to_string(),
+        "shadowin" => format!("{} = 5", st["x"].as_str().unwrap()),
+        "two" => format!("{n} = 6\noutput {n}", n = st["n"].as_str().unwrap()),
+        "blank" => "// nothing to evaluate".to_string(),
+        _ => stmt_text(st),
+    }
+}
+
+pub fn replay_inline(case: &J) -> J {
+    let texts: Vec<String> = case["texts"].as_array().unwrap().iter().map(inline_text).collect();
+    let inputs: serde_json::Map<String, J> = case["inputs"].as_object().map(|m| m.iter().map(|(k, v)| {
+        (k.clone(), serde_json::to_value(SerializableValue::from_json(&val_json(v))).unwrap())
+    }).collect()).unwrap_or_default();
+    let resp = match std::panic::catch_unwind(|| wasm_driver::evaluate_inline_expressions(json!(texts), J::Object(inputs))) {
+        Ok(Ok(j)) => j,
+        Ok(Err(_)) => json!("JsError"),
+        Err(_) => json!("panic"),
+    };
+    let mut problems = vec![];
+    let answers = case["answers"].as_array().unwrap();
+    match resp.as_array() {
+        None => problems.push(format!("the call as a whole gave {}", resp)),
+        Some(rs) => {
+            if rs.len() != answers.len() { problems.push(format!("{} answers for {} texts", rs.len(), answers.len())); }
+            for (i, (r, a)) in rs.iter().zip(answers.iter()).enumerate() {
+                let got_ok = r.get("value").is_some();
+                let exp_ok = a["ok"].as_bool().unwrap();
+                if got_ok != exp_ok { problems.push(format!("text {} ({:?}): {} but the model says {}", i + 1, texts[i], if got_ok { "a value" } else { "an error" }, if exp_ok { "a value" } else { "an error" })); continue; }
+                if exp_ok {
+                    let want = if a["v"]["t"] == "fn" { json!({"fn": true}) } else { val_json(&a["v"]) };
+                    let got = plain(&r["value"]);
+                    if got != want { problems.push(format!("text {} ({:?}): value {} but the model says {}", i + 1, texts[i], got, want)); }
+                }
+            }
+        }
+    }
+    crate::ev::clear_stats();
+    if problems.is_empty() { json!({"evals": texts.len(), "mismatches": []}) } else { json!({"evals": texts.len(), "mismatches": [{"src": texts.join(" | "), "inputs": case["inputs"], "obs": problems, "resp": resp}]}) }
+}
